@@ -163,7 +163,7 @@ func simulate(r *harness.Run, prog *scriggo.Program, policy, ctxKind int, logIt 
 	sched.Bubble(theT, func() {
 		s := sched.New(r.S)
 		s.Policy = policy
-		s.MaxSteps = 20000
+		s.MaxSteps = 200000
 		if logIt {
 			s.Log = r.Logf
 		}
